@@ -387,6 +387,12 @@ func (x *Exec) deref(v Value) *Ptr {
 	if v.P != nil {
 		return v.P
 	}
+	if len(v.L) == 1 {
+		// a structured address that went through a variable or the heap keeps its term
+		if p, ok := x.ptrs[v.L[0].S]; ok {
+			return p
+		}
+	}
 	pt, ok := v.T.Underlying().(*types.Pointer)
 	if !ok {
 		panic(fmt.Sprintf("deref of non-pointer %v", v.T))
@@ -397,6 +403,9 @@ func (x *Exec) deref(v Value) *Ptr {
 	}
 	return &Ptr{Kind: pHeap, Obj: v.L[0], Base: el, Off: 0, Sub: el}
 }
+
+// ptrValuePure is ptrValue without path-condition side effects (for specifications).
+func (x *Exec) ptrValuePure(t types.Type, p *Ptr) Value { return x.ptrValue(nil, t, p) }
 
 // ptrValue builds the Value for an address.
 func (x *Exec) ptrValue(st *State, t types.Type, p *Ptr) Value {
@@ -418,6 +427,15 @@ func (x *Exec) ptrValue(st *State, t types.Type, p *Ptr) Value {
 		fn := quoteSym(fmt.Sprintf("elemptr:%s:%d", typeKey(p.Base), p.Off))
 		x.pre.declare(fn, "(declare-fun "+fn+" (Int Int) Int)")
 		term = app(fn, sInt, p.Obj, p.Idx)
+	}
+	if !(p.Kind == pHeap && term.S == p.Obj.S) && p.Kind != pArr {
+		if x.ptrs == nil {
+			x.ptrs = map[string]*Ptr{}
+		}
+		x.ptrs[term.S] = p
+	}
+	if st != nil && !(p.Kind == pHeap && term.S == p.Obj.S) && p.Kind != pArr {
+		st.assume(mkCmp(">", term, tZero)) // addresses of variables, fields and elements are never nil
 	}
 	return Value{T: t, L: []Term{term}, P: p}
 }
